@@ -551,3 +551,32 @@ theorem include_eq_paste (W : World) (wd L : String) (env : Env) (chain : List S
     rw [lookup_erase_ne hne m, p2 k hk]
 
 end CV.Include
+
+namespace CV.Include
+open CV CV.Val
+
+/-! ## where a relative `env_file` is looked up (the quirk behind finding `nested-relative-env_file`) -/
+
+/-- a relative path handed to the operating system is resolved against the process working directory -/
+theorem osAbs_relative (W : World) (p : String) (h : isAbs p = false) : osAbs W p = join W.cwd p := by
+  simp only [osAbs, h, Bool.false_eq_true, if_false]
+
+/-- a relative `env_file` `f` is the file `join wd f`.  `wd` is the `workingDir` argument of `ApplyInclude`: absolute
+for the top-level project, but *relative* when the including file is itself included — then (`osAbs_relative`) the
+file is searched under the process working directory, not under the including project's directory -/
+theorem env_file_relative_lookup (W : World) (wd f : String) (hf : isAbs f = false) :
+    envFilesExplicit W wd [f] =
+      if statDir W (join wd f) then .err "notFile"
+      else if statFile W (join wd f) then .ok [join wd f]
+      else .err "statNotFound" := by
+  simp only [envFilesExplicit, hf, Bool.false_eq_true, if_false]
+  split
+  · rfl
+  · split <;> rfl
+
+/-- an absolute `env_file` is taken as it is (its existence is `GetEnvFromFile`'s business) -/
+theorem env_file_absolute (W : World) (wd f : String) (hf : isAbs f = true) :
+    envFilesExplicit W wd [f] = .ok [f] := by
+  simp only [envFilesExplicit, hf, if_true, bind_ok]
+
+end CV.Include
